@@ -11,9 +11,12 @@ package main
 import (
 	"encoding/json"
 	"fmt"
+	"sort"
 	"strings"
 
 	extv1 "k8s.io/apiextensions-apiserver/pkg/apis/apiextensions/v1"
+
+	"github.com/crossplane/crossplane/internal/xcrd"
 )
 
 var c11MachineryNames = []string{
@@ -465,6 +468,148 @@ func c11GenOld(r *Rng, n c11XrdS) c11XrdS {
 		}
 	}
 	return o
+}
+
+// c11Sweep is a deterministic stream run before the random one in every tier, so
+// that each branch the property names is exercised whatever the seed: every
+// machinery key of the live tables shadowed by an author property (spec and
+// status, several sub-schemas), every claim-name collision field, every kind of
+// update, schema absent / unparsable in each position.
+func c11Sweep() []c11Scn {
+	var out []c11Scn
+	base := func() c11XrdS {
+		c := c11NamesFor("Database")
+		return c11XrdS{Name: "xdatabases.example.org", UID: "uid-sweep", Group: "example.org", Names: c11NamesFor("XDatabase"), ClaimNames: &c,
+			Labels: map[string]string{}, MetaLabels: map[string]string{}, MetaAnnotations: map[string]string{}, Conversion: json.RawMessage("null")}
+	}
+	version := func(name string, ref bool, schema any) c11Version {
+		b, _ := json.Marshal(schema)
+		return c11Version{Name: name, Served: true, Referenceable: ref, Columns: []json.RawMessage{}, Schema: c11SchemaS{Present: true, Raw: string(b)}}
+	}
+	subs := []map[string]any{
+		{"type": "string"},
+		{"type": "object", "properties": map[string]any{"name": map[string]any{"type": "integer"}}, "required": []any{"name"}, "x-kubernetes-preserve-unknown-fields": true},
+		{"type": "array", "items": map[string]any{"type": "string"}, "description": "author's own"},
+	}
+	keys := map[string]bool{}
+	for _, k := range c11MachineryNames {
+		keys[k] = true
+	}
+	for k := range xcrd.CompositeResourceSpecProps() {
+		keys[k] = true
+	}
+	for k := range xcrd.CompositeResourceClaimSpecProps() {
+		keys[k] = true
+	}
+	var specKeys []string
+	for k := range keys {
+		specKeys = append(specKeys, k)
+	}
+	sort.Strings(specKeys)
+	statusKeys := append([]string{}, c11StatusMachineryNames...)
+	for k := range xcrd.CompositeResourceStatusProps() {
+		if !c11Contains(statusKeys, k) {
+			statusKeys = append(statusKeys, k)
+		}
+	}
+	sort.Strings(statusKeys)
+	for _, k := range specKeys {
+		for i, sub := range subs {
+			x := base()
+			doc := map[string]any{"type": "object", "properties": map[string]any{
+				"spec": map[string]any{"type": "object", "properties": map[string]any{k: sub, "region": map[string]any{"type": "string"}}, "required": []any{k, "region"}}}}
+			x.Versions = []c11Version{version("v1", true, doc)}
+			if i == 1 {
+				x.Versions = []c11Version{version("v1alpha1", false, map[string]any{"type": "object"}), version("v1", true, doc)}
+				p := "Manual"
+				q := "Foreground"
+				x.DefCUP, x.DefCDP = &p, &q
+			}
+			out = append(out, c11Scn{Xrd: x})
+		}
+	}
+	for _, k := range statusKeys {
+		for _, sub := range subs {
+			x := base()
+			doc := map[string]any{"type": "object", "properties": map[string]any{
+				"status": map[string]any{"type": "object", "properties": map[string]any{k: sub, "address": map[string]any{"type": "string"}}, "required": []any{"address"},
+					"x-kubernetes-validations": []any{map[string]any{"rule": "has(self.address)"}}, "oneOf": []any{map[string]any{"required": []any{"address"}}}}}}
+			x.Versions = []c11Version{version("v1", true, doc)}
+			out = append(out, c11Scn{Xrd: x})
+		}
+	}
+	// name limits
+	for _, ml := range []int{-1, 0, 1, 62, 63, 64, 253} {
+		x := base()
+		x.Versions = []c11Version{version("v1", true, map[string]any{"properties": map[string]any{"metadata": map[string]any{"properties": map[string]any{"name": map[string]any{"maxLength": ml}}}}})}
+		out = append(out, c11Scn{Xrd: x})
+	}
+	// claim-name collisions, field by field, with and without the optional names
+	for i := 0; i < 8; i++ {
+		x := base()
+		x.Versions = []c11Version{version("v1", true, map[string]any{"type": "object"})}
+		c := x.ClaimNames
+		switch i {
+		case 0:
+			c.Kind = x.Names.Kind
+		case 1:
+			c.Plural = x.Names.Plural
+		case 2:
+			c.Singular = x.Names.Singular
+		case 3:
+			c.ListKind = x.Names.ListKind
+		case 4:
+			c.Singular, x.Names.Singular = "", ""
+		case 5:
+			c.ListKind, x.Names.ListKind = "", ""
+		case 6:
+			c.Singular = x.Names.Plural // cross-field: not rejected by validateClaimNames
+		case 7:
+			x.ClaimNames = nil
+		}
+		out = append(out, c11Scn{Xrd: x})
+	}
+	// schema absent / unparsable in each position of a three-version XRD
+	for pos := 0; pos < 3; pos++ {
+		for _, bad := range []c11SchemaS{{Present: false}, {Present: true, RawNil: true}, {Present: true, Raw: `{"type": 5}`}} {
+			x := base()
+			x.Versions = []c11Version{version("v1alpha1", false, map[string]any{}), version("v1beta1", false, map[string]any{}), version("v1", true, map[string]any{})}
+			x.Versions[pos].Schema = bad
+			out = append(out, c11Scn{Xrd: x})
+		}
+	}
+	// updates: every immutable field, and the changes that are allowed
+	for i := 0; i < 10; i++ {
+		n := base()
+		n.Versions = []c11Version{version("v1", true, map[string]any{"type": "object"})}
+		o := c11CloneXrd(n)
+		switch i {
+		case 0:
+			o.Group = "old.example.org"
+		case 1:
+			o.Names.Kind = "XOld"
+		case 2:
+			o.Names.Plural = "xolds"
+		case 3:
+			o.ClaimNames.Kind = "Old"
+		case 4:
+			o.ClaimNames.Plural = "olds"
+		case 5:
+			o.ClaimNames = nil
+		case 6:
+			n.ClaimNames = nil
+		case 7:
+			o.Names.Singular, o.Names.ListKind, o.Names.ShortNames, o.Names.Categories = "xold", "XOldList", []string{"xo"}, []string{"all"}
+		case 8:
+			n.Conversion = json.RawMessage(`{"strategy":"Webhook"}`)
+		case 9:
+		}
+		for _, srv := range []c11Server{{}, {ExistsXR: true, ExistsClaim: true}, {ExistsXR: true}, {ExistsXR: true, RejectClaim: true}, {RejectXR: true}} {
+			oc := c11CloneXrd(o)
+			out = append(out, c11Scn{Xrd: c11CloneXrd(n), Old: &oc, Server: srv})
+		}
+	}
+	return out
 }
 
 func c11Gen(r *Rng, tier string) c11Scn {
